@@ -18,6 +18,7 @@ ASSUMPTIONS = ["'crosses the threshold' = epoch_before < threshold <= epoch_afte
 TIERS = {"quick": {"runs": 3000}, "thorough": {"runs": 100000}}
 REQUIRED = ["releases", "checkpoint_updates", "assessment_cut_short", "window_switch", "equal_returns", "td7_timelines"]
 REQUIRED_QUICK = REQUIRED
+CHUNK = 300
 SHRINK_LISTS = [["episodes"], ["env", "script"]]
 SHRINK_INTS = []
 
